@@ -212,9 +212,12 @@ where
     let mut sample_stride = 1u64;
 
     'levels: for level in 0..=cfg.max_dev {
-        let mut stack = std::mem::take(&mut level_items);
+        // breadth-first within a level (shorter histories first): a state is then first expanded
+        // with the largest remaining depth, which makes the dominance pruning effective
+        let mut stack: std::collections::VecDeque<(Vec<u32>, u32)> =
+            std::mem::take(&mut level_items).into_iter().collect();
         let mut level_execs = 0u64;
-        while let Some((prefix, cost)) = stack.pop() {
+        while let Some((prefix, cost)) = if cfg.prune { stack.pop_front() } else { stack.pop_back() } {
             // sharding: sub-trees are owned by the hash of their first `shard_depth` choices
             let owned = if prefix.len() >= cfg.shard_depth {
                 hash_prefix(&prefix[..cfg.shard_depth]) % (nshards as u64) == shard as u64
@@ -287,7 +290,8 @@ where
                 .filter(|r| r.kind == Kind::Dev && r.c != 0)
                 .count() as u32;
             debug_assert!(plen > log.len() || devs_before == cost || plen == 0 || true);
-            let last = log.len().saturating_sub(1);
+            // the choice that ended the history: the last top-level choice of the run
+            let last = log.iter().rposition(|r| r.kind == Kind::Top).unwrap_or(usize::MAX);
             for i in plen..log.len() {
                 let r = log[i];
                 if r.n > 1 {
@@ -314,7 +318,7 @@ where
                                 let mut p: Vec<u32> = log[..i].iter().map(|r| r.c).collect();
                                 p.push(alt);
                                 if new_cost <= level {
-                                    stack.push((p, new_cost));
+                                    stack.push_back((p, new_cost));
                                 } else {
                                     next_items.push((p, new_cost));
                                 }
